@@ -241,6 +241,10 @@ pub fn configs(tier: Tier) -> Vec<Config> {
     v.push(Config { name: "2-lazy-clones-disjoint-sets", objects: vec![0, 1], texts: vec![t(&["a1", "a2"]), t(&["b1", "b2"])], bound: None, lazy: true, fully_materialised: vec![] });
     v.push(Config { name: "2-lazy-savers-same-object", objects: vec![0, 0], texts: vec![t(&["alpha", "beta"])], bound: None, lazy: true, fully_materialised: vec![] });
     v.push(Config { name: "2-lazy-clones-one-fully-materialised", objects: vec![0, 1], texts: vec![t(&["a1", "a2"]), t(&["b1", "b2"])], bound: None, lazy: true, fully_materialised: vec![1] });
+    // lazily opened and NEVER touched before the savers start (no sheet materialised, no edit): whatever the library
+    // defers to the first access of such a workbook happens inside the concurrent saves
+    v.push(Config { name: "2-lazy-clones-never-touched", objects: vec![0, 1], texts: vec![vec![], vec![]], bound: None, lazy: true, fully_materialised: vec![] });
+    v.push(Config { name: "2-lazy-savers-same-object-never-touched", objects: vec![0, 0], texts: vec![vec![]], bound: None, lazy: true, fully_materialised: vec![] });
     v.push(Config { name: "3-lazy-shared+clone-overlapping", objects: vec![0, 0, 1], texts: vec![t(&["onlyA", "common"]), t(&["common", "onlyB"])], bound: Some(if thorough { 3 } else { 2 }), lazy: true, fully_materialised: vec![] });
     if !thorough {
         // quick tier: since the per-save string table (fix 5ef43dc) fully loaded workbooks share no mutable state
@@ -266,15 +270,20 @@ fn lazy_file_bytes() -> Vec<u8> {
 }
 
 fn build_books(cfg: &Config) -> Vec<Arc<Spreadsheet>> {
+    let never_touched = cfg.lazy && cfg.texts.iter().all(|t| t.is_empty());
     let mut base = if cfg.lazy {
         // opened lazily; only the first sheet is materialised (and edited below), the second stays raw
         let mut b = load_bytes(&lazy_file_bytes(), false).expect("lazy load");
-        b.read_sheet(0);
+        if !never_touched {
+            b.read_sheet(0);
+        }
         b
     } else {
         new_file()
     };
-    base.get_sheet_mut(&0).unwrap().get_cell_mut("D1").set_value_number(42);
+    if !never_touched {
+        base.get_sheet_mut(&0).unwrap().get_cell_mut("D1").set_value_number(42);
+    }
     let nobj = cfg.texts.len();
     let mut objs: Vec<Spreadsheet> = vec![];
     for j in 0..nobj {
